@@ -730,6 +730,10 @@ func (c *valConfig) genSafeFormatScript(rt *rapid.T, depth int, pub bool) []*Op 
 			// %w in a nested format: always a bad verb there (only the format
 			// of HelperForErrorf itself may wrap)
 			ops = append(ops, &Op{K: "Printf", S: B("x %w y"), Args: []*Val{c.leafS(rt, "stderr", pub, false)}})
+		case k == 4 && !c.noRedactable && !c.fmtCompat && depth < 3:
+			// Print with a single operand that is redactable already (the
+			// shape of w.Print(redact.Sprintf(...)))
+			ops = append(ops, &Op{K: "Print", Args: []*Val{{K: pick(rt, "prk1", []string{"rs", "rs", "rb"}), Pr: c.genPrintSpec(rt, depth+1, pub)}}})
 		default:
 			ops = append(ops, genOp(rt, oc))
 		}
